@@ -40,12 +40,43 @@ def URL.Path! (u : URL) : M Str := if u.isNil then (.error "invalid memory addre
 def URL.Hostname! (u : URL) : M Str := if u.isNil then (.error "invalid memory address or nil pointer dereference") else pure u.hostname
 def URL.Port! (u : URL) : M Str := if u.isNil then (.error "invalid memory address or nil pointer dereference") else pure u.port
 
+/-- `time.Time`: nanoseconds since the Unix epoch; `none` is the zero Time (year 1), which is before every other instant -/
+structure Time where
+  unixNano : Option Int := none
+  deriving Repr, BEq, DecidableEq
+
+/-- `t.Before(u)` -/
+def Time.before (t u : Time) : Bool :=
+  match t.unixNano, u.unixNano with
+  | none, some _ => true
+  | some a, some b => decide (a < b)
+  | _, none => false
+/-- `t.IsZero()` (a value method: no receiver to dereference) -/
+def Time.IsZero! (t : Time) : M Bool := pure t.unixNano.isNone
+
+/-- what `jwt.Parse` (no validation) returns, as far as the translated code looks at it: the `exp` claim -/
+structure JwtToken where
+  isNil : Bool := false
+  exp : Time := {}
+  deriving Repr, BEq, DecidableEq
+/-- `token.Expiration()` through the interface value: nil panics -/
+def JwtToken.Expiration! (t : JwtToken) : M Time :=
+  if t.isNil then .error "invalid memory address or nil pointer dereference" else pure t.exp
+
 /-- Results of library calls that the model treats as oracles, supplied per evaluation. -/
 structure Env where
   /-- `regexp.MatchString pattern s` = (matched, err ≠ nil) -/
   regexpMatchString : Str → Str → Bool × Bool := fun _ _ => (false, false)
   /-- `url.Parse s` = (the URL, nil on failure; err ≠ nil) -/
   urlParseOracle : Str → URL × Bool := fun _ => ({ isNil := true }, true)
+  /-- `oidc.ParseToken s` = (the token, nil on failure; err ≠ nil) -/
+  parseTokenOracle : Str → JwtToken × Bool := fun _ => ({ isNil := true }, true)
+  /-- `clock.Now()` during this evaluation -/
+  now : Time := {}
+
+def Env.parseToken (env : Env) (s : Str) : JwtToken × Error :=
+  let r := env.parseTokenOracle s
+  (r.1, { isNil := !r.2 })
 
 def Env.urlParse (env : Env) (s : Str) : URL × Error :=
   let r := env.urlParseOracle s
